@@ -665,16 +665,17 @@ def record(consts, rng, max_events=50):
 def pops_on_raise():
     """Does service_timeouts finish a timer whose callback raised (PopOnRaise), or call it again?"""
     c = {"WithTimers": True, "WithSched": False, "NT": 1, "NK": 1, "Raise": {1}, "MaxFire": 3, "SpawnCodes": set(),
-         "KillCodes": set(), "SpawnDelay": 0}
+         "KillCodes": set(), "SpawnDelay": 0, "MaxTime": 1}
     h = Harness(c)
     try:
         h.act_AddTimer(1, 0)
+        h.act_Tick(0, 0)                    # well past its end: the answer must not depend on boundary behaviour
         h.act_SvcMerge(0, 0)
         h.act_SvcReadClock(0, 0)
         n = 0
         while h.svc_state() == "loop" and n < 10:
             h.act_SvcStep(0, 0)
             n += 1
-        return h.fired[1] == 1, h.fired[1]
+        return h.fired[1] <= 1, h.fired[1]   # anything else that is wrong shows up as a replay divergence
     finally:
         h.close()
